@@ -26,17 +26,19 @@ structure AccInv (m : Mat) (w : Nat) (g : Nat → Int) (B : Rat) (k : Nat) (st :
   f0n : st.cnt = 0 → ∀ i, i < k → g i < 0 → m (i+1) 0 ≠ pinf
   c1 : st.cnt = 1 → 1 ≤ st.idx ∧ st.idx ≤ k ∧
     ∀ y, Box m w y → fin (B + linEval (zeroAt g (st.idx - 1)) y k) ≤ st.sum
+  n1 : st.cnt = 1 → g (st.idx - 1) ≠ 0
 
 variable {R : Rnd} {m : Mat} {w : Nat} {g : Nat → Int} {B : Rat} {k : Nat} {st : Acc}
 
 theorem AccInv.init (hR : R.Sound) (m : Mat) (w : Nat) (g : Nat → Int) (B : Rat) :
     AccInv m w g B 0 ⟨R.up B, 0, 0⟩ := by
-  refine ⟨fun _ y _ => ?_, fun _ i hi => by omega, fun _ i hi => by omega, fun h => by simp at h⟩
+  refine ⟨fun _ y _ => ?_, fun _ i hi => by omega, fun _ i hi => by omega, fun h => by simp at h,
+    fun h => by simp at h⟩
   simp only [linEval, add_zero]
   exact hR.up_le B
 
 theorem AccInv.skip (h : AccInv m w g B k st) (hg : g k = 0) : AccInv m w g B (k+1) st := by
-  refine ⟨fun hc y hy => ?_, fun hc i hi hp => ?_, fun hc i hi hp => ?_, fun hc => ?_⟩
+  refine ⟨fun hc y hy => ?_, fun hc i hi hp => ?_, fun hc i hi hp => ?_, fun hc => ?_, h.n1⟩
   · simp only [linEval, hg]; simpa using h.c0 hc y hy
   · have : i ≠ k := by intro e; subst e; omega
     exact h.f0p hc i (by omega) hp
@@ -51,7 +53,7 @@ theorem AccInv.skip (h : AccInv m w g B k st) (hg : g k = 0) : AccInv m w g B (k
     simp only [linEval, this]; simpa using h3 y hy
 
 theorem AccInv.dead (hc : st.cnt > 1) : AccInv m w g B k st :=
-  ⟨fun h => by omega, fun h => by omega, fun h => by omega, fun h => by omega⟩
+  ⟨fun h => by omega, fun h => by omega, fun h => by omega, fun h => by omega, fun h => by omega⟩
 
 /-- the bound of the variable on the side needed for the sign of its coefficient -/
 def approxOf (m : Mat) (g : Nat → Int) (i : Nat) : ExtRat := if g i > 0 then m 0 (i+1) else m (i+1) 0
@@ -80,7 +82,7 @@ theorem AccInv.addMul (hR : R.Sound) (h : AccInv m w g B k st) (hk : k < w) (hg 
     AccInv m w g B (k+1)
       { st with sum := addMulUp R st.sum (R.up ((absI (g k) : Int) : Rat)) (fin A) } := by
   rw [hcoef]
-  refine ⟨fun hc y hy => ?_, fun hc i hi hp => ?_, fun hc i hi hp => ?_, fun hc => ?_⟩
+  refine ⟨fun hc y hy => ?_, fun hc i hi hp => ?_, fun hc i hi hp => ?_, fun hc => ?_, fun hc => h.n1 hc⟩
   · simp only [linEval]
     rw [← add_assoc]
     exact fin_le_addMulUp hR (h.c0 hc y hy) (term_le hy hk hg hA)
@@ -104,7 +106,12 @@ theorem AccInv.addMul (hR : R.Sound) (h : AccInv m w g B k st) (hk : k < w) (hg 
 theorem AccInv.pinf (h : AccInv m w g B k st) (hk : k < w) (hg : g k ≠ 0)
     (hA : approxOf m g k = pinf) (idx' : Nat) (hidx : st.cnt = 0 → idx' = k + 1) :
     AccInv m w g B (k+1) { st with cnt := st.cnt + 1, idx := idx' } := by
-  refine ⟨fun hc => by simp at hc, fun hc => by simp at hc, fun hc => by simp at hc, fun hc => ?_⟩
+  refine ⟨fun hc => by simp at hc, fun hc => by simp at hc, fun hc => by simp at hc, fun hc => ?_, fun hc => ?_⟩
+  rotate_left
+  · have hc0 : st.cnt = 0 := by simpa using hc
+    dsimp only
+    rw [hidx hc0]
+    simpa using hg
   have hc0 : st.cnt = 0 := by simpa using hc
   have hi := hidx hc0
   dsimp only
@@ -133,7 +140,7 @@ theorem accStepA_inv (hR : R.Sound) (hcoef : CoeffExact R g) (h : AccInv m w g B
         exact h.pinf hk h0 hA _ (fun _ => rfl)
       | fin A =>
         simp only [isPinf, Bool.not_false, if_true]
-        exact h.addMul hR hk h0 (hcoef k) hA
+        exact h.addMul hR hk h0 (hcoef k h0) hA
     · rename_i hc; exact AccInv.dead (by omega)
 
 /-- one iteration of the `generalized_affine_image`-style loop (`break` / `continue`) -/
@@ -158,7 +165,7 @@ theorem accStepG_inv (hR : R.Sound) (hcoef : CoeffExact R g) (h : AccInv m w g B
         · exact h.pinf hk h0 hA _ (fun _ => rfl)
       | fin A =>
         simp only [isPinf, Bool.false_eq_true, if_false]
-        exact h.addMul hR hk h0 (hcoef k) hA
+        exact h.addMul hR hk h0 (hcoef k h0) hA
 
 theorem accLoopA_inv (hR : R.Sound) (hcoef : CoeffExact R g) (st0 : Acc) (h0 : AccInv m w g B 0 st0) :
     ∀ k, k ≤ w → AccInv m w g B k (loopUp k (accStepA R m g true) st0) := by
